@@ -267,6 +267,12 @@ def check_reject(case, ctx, rng):
         if p >= 2:
             must_raise(lambda: helpers.degree_reduction(p, P + [P[-1]]), 'reject/non-bezier-accepted',
                        'degree_reduction accepted %d points for degree %d' % (p + 2, p))
+            for k_ in (1, 2):
+                if p + 1 - k_ >= 1:
+                    must_raise(lambda: helpers.degree_reduction(p, P[:p + 1 - k_]), 'reject/non-bezier-accepted',
+                               'degree_reduction accepted %d points for degree %d' % (p + 1 - k_, p))
+            must_raise(lambda: helpers.degree_elevation(p, P + [P[-1], P[0]], num=2), 'reject/non-bezier-accepted',
+                       'degree_elevation accepted %d points for degree %d' % (p + 3, p))
     for q in (0, 1):
         Pq = polygon(rng, q, 'cartesian', 2)
         must_raise(lambda: helpers.degree_reduction(q, Pq), 'reject/degree<2-accepted', 'degree_reduction accepted degree %d' % q)
